@@ -10,6 +10,7 @@ MCOcc == CASE OccName = "s1"     -> [p \in 0..3 |-> IF p = 0 THEN "single" ELSE 
            [] OccName = "ic3"    -> [p \in 0..3 |-> IF p = 3 THEN "ic" ELSE "none"]
            [] OccName = "mid"    -> [p \in 0..3 |-> IF p \in {1, 2} THEN "single" ELSE "none"]
            [] OccName = "s4"     -> [p \in 0..3 |-> "single"]
+           [] OccName = "ic_ic"  -> [p \in 0..3 |-> IF p \in {0, 2} THEN "ic" ELSE "none"]   \* an Ice Climbers ditto
 MCIdSteps == {1, 0, -1, 2}
 MCIdStepsSmall == {1, -1}
 =============================================================================
